@@ -22,7 +22,7 @@ PROJECTION = {
     'C17': ('Y', 'R', 'results'),
 }
 
-CORPUS = {'C01': ['D9'], 'C02': ['D2', 'D9'], 'C03': ['D9'], 'C10': ['D1', 'D2', 'D16', 'D23'], 'C17': ['D3']}
+CORPUS = {'C01': ['D9'], 'C02': ['D2', 'D9'], 'C03': ['D9'], 'C10': ['D1', 'D2', 'D16', 'D23'], 'C11': ['D24'], 'C17': ['D3']}
 
 RULES = {
     'C01': 'distinct generated DAG cases in which every task of the closure succeeds, the pre-cached entries are sound and the closure has >= 2 tasks',
